@@ -182,7 +182,8 @@ def main(argv=None):
                        "model": res.get('model'), "smt2": ob.meta.get('smt2', '')[:20000],
                        "source_line": ob.line, "paths_failing": len(lst)}
         native = None
-        rp = getattr(mod, "REPLAY", {}).get(ob.label) or getattr(mod, "REPLAY", {}).get(name)
+        rp = getattr(mod, "REPLAY", {}).get(ob.label) or getattr(mod, "REPLAY", {}).get(name) \
+            or getattr(mod, "REPLAY", {}).get("*")
         replay_res = None
         if rp:
             models = [o.meta['result'].get('model') for o in lst if o.meta['result'].get('model')]
